@@ -20,6 +20,8 @@ import random
 
 import numpy as np
 
+from pwlib.share import shcopy
+
 from pwlib.engine import Case
 from pwlib.proto import Line
 
@@ -118,6 +120,9 @@ def make_self(kind):
         return (_poly(False), Plane(np.array([0.5, 0.0, 0.0]), np.array([1.0, 0.0, 0.0])))
     if kind == "composite":
         return _composite()
+    if kind == "composite_empty":
+        from polliwog import CompositeTransform
+        return CompositeTransform()          # nothing appended yet: the degenerate receiver
     if kind == "manager":
         return _manager(False)
     if kind == "manager_set":
@@ -470,6 +475,11 @@ def gen(rng, tier):
                         for stream in ("lattice", "float"):
                             yield {"op": "stack", "callable": name, "self": si, "form": fi, "k": k, "stream": stream,
                                    "seed": rng.randrange(1 << 30)}
+                    # rows of very different sizes in one stack (each row of the stacked arguments times its own power of
+                    # ten): a row must not feel its neighbours
+                    for k in (2, 4):
+                        yield {"op": "stack", "callable": name, "self": si, "form": fi, "k": k, "stream": "float-mixed",
+                               "seed": rng.randrange(1 << 30)}
     for fnname in ("signed_distance_to_plane", "project_point_to_plane", "mirror_point_across_plane"):
         for kp, ke in ((2, 3), (3, 2), (1, 2), (2, 1), (0, 1), (5, 0)):
             yield {"op": "stackerr", "fn": fnname, "kp": kp, "ke": ke, "seed": rng.randrange(1 << 30)}
@@ -640,6 +650,24 @@ def xsection_undetermined(plane, mname, a, b):
     return False
 
 
+def sign_undetermined(plane, row):
+    """Plane.sign is a step function of the signed distance, and the stacked and the single call round that distance
+    differently (different summation order): a point within rounding error of an oblique plane has no determined sign and
+    is not compared.  Against an axis-aligned plane the one non-zero product is exact and every point is compared."""
+    from fractions import Fraction as Fr
+    n = [Fr(float(x)) for x in plane.normal]
+    if sorted(abs(float(x)) for x in plane.normal) == [0.0, 0.0, 1.0]:
+        return False
+    ref = [Fr(float(x)) for x in plane.reference_point]
+    pts = np.asarray(list(row.values())[0], dtype=np.float64).reshape(-1, 3)
+    for p in pts:
+        q = [Fr(float(x)) for x in p]
+        d = sum((a - b) * c for a, b, c in zip(q, ref, n))
+        if abs(d) <= Fr(1, 10 ** 9) * max([Fr(1)] + [abs(x) for x in q + ref]):
+            return True
+    return False
+
+
 def as_list(res):
     if isinstance(res, tuple):
         return [np.asarray(x) for x in res]
@@ -666,11 +694,21 @@ def make_stack(spec):
     def build():
         S = make_self(sk)
         A = build_args(e, shapes, S, spec["seed"])
-        if spec["stream"] == "float" and A is not None:
+        if spec["stream"] in ("float", "float-mixed") and A is not None:
             g = np.random.default_rng(spec["seed"] + 7)
             for a, kind in e.args:
                 if a in A and isinstance(A[a], np.ndarray) and kind in ("f", "ff") and A[a].dtype == np.float64:
                     A[a] = A[a] + g.normal(size=A[a].shape) * 0.37
+        if spec["stream"] == "float-mixed" and A is not None:
+            g = np.random.default_rng(spec["seed"] + 11)
+            rowscale = 10.0 ** (g.choice([-40.0, -20.0, 0.0, 20.0, 40.0], size=k) + g.uniform(-1, 1, size=k))
+            if k >= 2:
+                rowscale[0], rowscale[1] = 10.0 ** g.uniform(-41, -39), 10.0 ** g.uniform(39, 41)
+            kinds = dict(e.args)
+            for a in stacked:
+                if isinstance(A.get(a), np.ndarray) and kinds.get(a) in ("f", "ff") and A[a].dtype == np.float64 \
+                        and A[a].ndim >= 1 and A[a].shape[0] == k:
+                    A[a] = A[a] * rowscale.reshape((k,) + (1,) * (A[a].ndim - 1))
         return S, A
 
     def impl():
@@ -693,7 +731,13 @@ def make_stack(spec):
                 return []
         scale = max([1.0] + [float(np.max(np.abs(v))) for v in A.values() if isinstance(v, np.ndarray) and v.size and v.dtype.kind == "f"])
         tol = 1e-9 * scale * scale
+        mixed = spec["stream"] == "float-mixed"
         for i in range(k):
+            if mixed:
+                # judged at the row's own size (the other rows are up to 1e80 times larger)
+                rs = max([1.0] + [float(np.max(np.abs(v[i] if a in stacked else v))) for a, v in A.items()
+                                  if isinstance(v, np.ndarray) and v.size and v.dtype.kind == "f"])
+                tol = 1e-9 * rs * rs
             row = {}
             for a, v in A.items():
                 if a in stacked:
@@ -720,6 +764,9 @@ def make_stack(spec):
                         obs["msgs"].append(("stack-is-map/%s" % e.name, "%s: row %d = %s but the single call gives %s" % (what, i, full[0][i], r)))
                     elif not valid and not np.all(np.isnan(full[0][i])):
                         obs["msgs"].append(("stack-is-map/%s" % e.name, "%s: invalid row %d is not NaN" % (what, i)))
+                    continue
+                if e.name == "Plane.sign" and sign_undetermined(S, row):
+                    obs["undetermined"] = obs.get("undetermined", 0) + 1
                     continue
                 one = as_list(e.call(row, S))
             except Exception as ex:  # noqa: BLE001
@@ -772,12 +819,12 @@ def make_stack(spec):
             put(ln, P)
             put(ln, E)
             f = getattr(__import__("polliwog.plane", fromlist=[short]), short)
-            im = lambda: canon_stk(f(P.copy(), E.copy()))
+            im = lambda: canon_stk(f(shcopy(P), shcopy(E)))
             sc = max(1.0, float(np.max(np.abs(P))) if P.size else 1.0) * max(1.0, float(np.max(np.abs(E))) if E.size else 1.0) ** 2
         else:
             ln = Line("stk.plane").tok(mops[short]).vec(S.reference_point).vec(S.normal)
             put(ln, P)
-            im = lambda: canon_stk(getattr(make_self(sk), short)(P.copy()))
+            im = lambda: canon_stk(getattr(make_self(sk), short)(shcopy(P)))
             sc = max(1.0, float(np.max(np.abs(P))) if P.size else 1.0, float(np.max(np.abs(S.reference_point))))
         cases.append(Case(spec, ln, im, mode="rat", klass="stack-model/%s/%s" % (e.name, "+".join(sorted(stacked)) or "single"),
                           trivial=(k == 0), scale=sc))
@@ -793,7 +840,7 @@ def make_stackerr(spec):
     E = g.integers(-8, 9, size=(spec["ke"], 4)).astype(np.float64) / 2.0
     f = getattr(__import__("polliwog.plane", fromlist=[short]), short)
     ln = Line("stk." + ops[short]).tok("many").vecs(P).tok("many").vecs(E)
-    return Case(spec, ln, lambda: [float(x) for x in np.asarray(f(P.copy(), E.copy())).ravel()], mode="rat",
+    return Case(spec, ln, lambda: [float(x) for x in np.asarray(f(shcopy(P), shcopy(E))).ravel()], mode="rat",
                 klass="stack-model/%s/length-mismatch" % short, trivial=False)
 
 
